@@ -254,6 +254,18 @@ class T:
     # ---- inputs ----------------------------------------------------------
     def inp(self, name, desc):
         self.inputs[name] = desc
+        if getattr(self, "construct_regions", False) and isinstance(desc, (InRect, InEll)):
+            # second attempt of a task whose body asked a region stub for an attribute the contract does not model: the region
+            # is built by the REAL constructor (a complete object: whatever the class keeps besides its declared fields is there)
+            rect = isinstance(desc, InRect)
+            cname = "RectangularConfidenceRegion" if rect else "EllipsoidalConfidenceRegion"
+            obj = SObj(cls_ref("vopy/confidence_region.py", cname), tag=getattr(desc.sym, "tag", name))
+            args = [desc.m, desc.lower.sym, desc.upper.sym, desc.iterative] if rect else [desc.m, desc.center.sym, desc.sigma.sym, desc.alpha.sym]
+            rets = [p for p in self.run("vopy/confidence_region.py", cname + ".__init__", args, self_val=obj) if p.kind == "return"]
+            if len(rets) != 1:
+                raise Unsupported("the constructor of an input region does not return on exactly one path")
+            self._after = rets[0]
+            desc.sym = obj
         return desc.sym
 
     def assume(self, *fs):
@@ -277,6 +289,8 @@ class T:
         """Symbolically execute the real function. Returns list[Path].  `after`: a Path of an earlier run of this task: the
         call continues in that path's final state (module-level objects, heap), for properties about call SEQUENCES."""
         fref = extract.get_function(relpath, qualname)
+        if after is None:
+            after = getattr(self, "_after", None)     # inputs built by real constructors live in that state
         ex = Exec(self.ctx, contracts=self.contracts, hooks=self.hooks)
         ex.setmode = setmode
         V.IEEE_DIV[0] = bool(self.ieee_div)
@@ -852,7 +866,7 @@ def _mentions_overapprox(formulas, model=None):
     return False
 
 
-def run_task(full_name, tier, timeout_ms, clause_filter=None):
+def run_task(full_name, tier, timeout_ms, clause_filter=None, _retry_constructed=False):
     """Executed in a worker process. Returns a plain dict."""
     V.IEEE_DIV[0] = False
     info = TASKS[full_name]
@@ -861,6 +875,7 @@ def run_task(full_name, tier, timeout_ms, clause_filter=None):
     # symbolic execution of one task may take at most this long (solver calls have their own budgets)
     _sx_mod.DEADLINE[0] = t0 + float(os.environ.get("PYVC_EXEC_BUDGET_S", "150" if tier == "quick" else "1200"))
     t = T(info["prop"], info["name"], tier, timeout_ms)
+    t.construct_regions = bool(_retry_constructed)
     if clause_filter:
         import re
         t.clause_filter = re.compile(clause_filter)
@@ -884,6 +899,13 @@ def run_task(full_name, tier, timeout_ms, clause_filter=None):
     except Unsupported as e:
         out["status"] = "unsupported"
         out["detail"] = str(e)
+        if "unmodelled attribute" in str(e) and not getattr(t, "construct_regions", False) and not _retry_constructed:
+            # a region stub was asked for something the contract does not model: try once more with the input regions built by
+            # the real constructors (complete objects)
+            r2 = run_task(full_name, tier, timeout_ms, clause_filter, _retry_constructed=True)
+            if r2["status"] == "ok":
+                r2["mode"] = (r2.get("mode") or "") + " [input regions built by the real constructors]"
+                return r2
     except Exception as e:
         out["status"] = "error"
         out["detail"] = "%s: %s\n%s" % (type(e).__name__, e, traceback.format_exc()[-1500:])
